@@ -490,7 +490,14 @@ def simp(e):
     return e
 
 def binop(op, a, b, w):
-    if isinstance(a, Undef) or isinstance(b, Undef): return UNDEF
+    if isinstance(a, Undef) or isinstance(b, Undef):
+        # SROA's bit-insert idiom `(undef & ~mask) | field` carries padding bits as `undef` through registers: `undef` (not poison) may be
+        # any value, 0 is one of them, and the padding is never observed.  Only for and / or / zext-free shifts; other arithmetic stays undef.
+        if op in ('and', 'or', 'shl', 'lshr') and not (isinstance(a, Undef) and isinstance(b, Undef)):
+            if isinstance(a, Undef): a = 0
+            else: b = 0
+        else:
+            return UNDEF
     if not is_sym(a) and not is_sym(b):
         m = mask(w)
         if op == 'add': return (a + b) & m
